@@ -205,7 +205,7 @@ func (x *fx) oblige(kind, label, goal, desc string) *Oblig {
 	if goal == "true" {
 		return nil
 	}
-	if kind == "safe" && x.c.NoPanicOff {
+	if kind == "safe" && x.c.NoPanicOff && !x.c.KeepSafe[label] {
 		// nosafety: no obligation, but execution only continues past this point
 		// when the operation did not panic
 		x.assumeAt(x.curPC, goal)
